@@ -532,3 +532,61 @@ Section ComputeB.
     replace (i <? length a) with true by (symmetry; apply Nat.ltb_lt; exact H). rewrite Nat.sub_0_r. reflexivity.
   Qed.
 End ComputeB.
+
+(* ------------------------------------------------------------------ *)
+(* the verifier IS the textbook (recursive-folding) verifier             *)
+(* ------------------------------------------------------------------ *)
+Section RefinesSpec.
+  Local Open Scope nat_scope.
+  Context {F G : Type} (fo : FOps F) (go : GOps F G) (hashf : list Z -> list Z)
+          (FL : FieldLaws fo) (GL : GroupLaws fo go).
+
+  (* textbook verifier: derive w and the round challenges from the transcript, fold the
+     basis and the b-vector round by round with the inverted challenges, fold the
+     commitment, and test  a*G' + (a*b')*q = C'  *)
+  Definition ipa_check_spec (t : tstate) (cfg : config (F := F) (G := G)) (c : G)
+             (pr : ipa_proof (F := F) (G := G)) (z res : F) : option (tstate * bool) :=
+    let t := t_domain_sep t lbl_ipa in
+    if negb (Nat.eqb (length (pL pr)) (length (pR pr))) then None else
+    if negb (Nat.eqb (length (pL pr)) (c_rounds cfg)) then None else
+    let t := t_append_point t (genc go c) lbl_C in
+    let t := t_append_scalar fo t z lbl_input_point in
+    let t := t_append_scalar fo t res lbl_output_point in
+    let '(t, w) := t_challenge fo hashf t lbl_w in
+    let q := gmul go w (c_Q cfg) in
+    let '(t, xs) := gen_challenges fo go hashf t (pL pr) (pR pr) in
+    let xinvs := batch_invert fo xs in
+    let cfold := fold_commitment fo go (gadd go c (gmul go res q)) xs xinvs (pL pr) (pR pr) in
+    let g' := hd (g0 go) (fold_all_g go xinvs (c_srs cfg)) in
+    let b' := hd (f0 fo) (fold_all_a fo xinvs (compute_b fo cfg z)) in
+    Some (t, geqb go (gadd go (gmul go (pA pr) g') (gmul go (fmul fo b' (pA pr)) q)) cfold).
+
+  Lemma gen_challenges_length L : forall R t, length R = length L ->
+    length (snd (gen_challenges fo go hashf t L R)) = length L.
+  Proof.
+    induction L as [|l L IH]; intros [|r R] t H; try discriminate; cbn [gen_challenges]; [reflexivity|].
+    destruct (t_challenge fo hashf _ lbl_x) as [t1 x]. specialize (IH R t1 ltac:(cbn in H; lia)).
+    destruct (gen_challenges fo go hashf t1 L R) as [t2 xs]. cbn [snd length] in *. lia.
+  Qed.
+
+  Theorem ipa_check_refines_spec t cfg c pr z res :
+    length (c_srs cfg) = 2 ^ c_rounds cfg -> length (compute_b fo cfg z) = 2 ^ c_rounds cfg ->
+    ipa_check fo go hashf t cfg c pr z res = ipa_check_spec t cfg c pr z res.
+  Proof.
+    intros Hs Hb. unfold ipa_check, ipa_check_spec.
+    destruct (Nat.eqb (length (pL pr)) (length (pR pr))) eqn:E1; cbn [negb]; [|reflexivity].
+    destruct (Nat.eqb (length (pL pr)) (c_rounds cfg)) eqn:E2; cbn [negb]; [|reflexivity].
+    apply Nat.eqb_eq in E1, E2.
+    destruct (t_challenge fo hashf _ lbl_w) as [t1 w].
+    pose proof (gen_challenges_length (pL pr) (pR pr) t1 (eq_sym E1)) as Hl.
+    destruct (gen_challenges fo go hashf t1 (pL pr) (pR pr)) as [t2 xs]. cbn [snd] in Hl.
+    set (xinvs := batch_invert fo xs).
+    assert (Hlx : length xinvs = c_rounds cfg) by (unfold xinvs; rewrite (batch_invert_length fo FL); lia).
+    rewrite Hl, E2, <- Hlx, Hs, <- Hlx.
+    rewrite (folding_scalars_spec fo FL xinvs).
+    rewrite (fold_all_g_spec fo go FL GL xinvs (c_srs cfg)) by (rewrite Hlx; exact Hs).
+    rewrite (fold_all_a_as_g fo), (fold_all_g_spec fo (fgo fo) FL (fgo_laws fo FL) xinvs (compute_b fo cfg z))
+      by (rewrite Hlx; exact Hb).
+    cbn [hd]. rewrite <- (inner_msm fo). rewrite (inner_comm fo FL (compute_b fo cfg z)). reflexivity.
+  Qed.
+End RefinesSpec.
